@@ -112,6 +112,22 @@ class Evaluator(object):
     def e_Set(self, n):
         return [self.ev(e) for e in n.elts]
 
+    def e_Subscript(self, n):
+        """x[i] / x[i:j] of a concrete sequence, string or dict value with a concrete index (e.g. the first coefficient of a call's result tuple)"""
+        base = self.ev(n.value)
+        if isinstance(n.slice, ast.Slice):
+            key = slice(*[None if p is None else self.ev(p) for p in (n.slice.lower, n.slice.upper, n.slice.step)])
+            concrete = all(p is None or (isinstance(p, int) and not isinstance(p, bool)) for p in (key.start, key.stop, key.step))
+        else:
+            key = self.ev(n.slice)
+            concrete = isinstance(key, (int, str)) and not isinstance(key, bool)
+        if not concrete or not isinstance(base, (list, tuple, str, dict)) or (isinstance(base, dict) and isinstance(key, slice)):
+            raise Unknown("subscript of a value that is not a concrete container, or by a non-concrete index: %s" % unparse(n))
+        try:
+            return base[key]
+        except (IndexError, KeyError, TypeError):
+            raise Unknown("subscript out of range / missing key: %s" % unparse(n))
+
     def e_UnaryOp(self, n):
         v = self.ev(n.operand)
         if isinstance(n.op, ast.Not):
